@@ -25,7 +25,7 @@ RULE = ('each run: one sequential library block (Reg with all option combination
 REAL = ['py4hw sequential library blocks', 'py4hw.simulation.Simulator']
 STUB = ['stimulus (wire.put between clk calls)']
 ASSUMPTIONS = ['state machines in dsim/catalog.py are the documented ones; power-up: output wire 0, held value = reset value']
-PROBES = ['block_added_after_simulation', 'left_powerup', 'control_collision', 'wrap_around', 'stack_overfill', 'stack_pop_empty', 'same_addr_rw']
+PROBES = ['long_run', 'block_added_after_simulation', 'left_powerup', 'control_collision', 'wrap_around', 'stack_overfill', 'stack_pop_empty', 'same_addr_rw']
 
 SEQ = [k for k in kinds_with(seq=True) if k.name != 'Sequence']
 
@@ -43,6 +43,10 @@ def gen(rs, tier, index):
     sr = rs.get('stimulus')
     fr = rs.get('faults')
     ncyc = sr.choice([30, 60, 120]) if tier == 'quick' else sr.choice([60, 150, 400])
+    long_run = fr.random() < 0.03
+    if long_run:
+        # a long run: thousands of edges (a counter, a list or an index inside the block or the simulator wraps or fills up)
+        ncyc = fr.choice([300, 600, 1100, 2200, 4500]) if tier == 'quick' else fr.choice([1100, 4500, 9000, 20000])
     # Markov input generator: each input holds its value with its own probability
     hold = [sr.choice([0.0, 0.3, 0.6, 0.9, 0.97]) for _ in d['inputs']]
     p1 = [sr.choice([0.1, 0.5, 0.9]) for _ in d['inputs']]
@@ -61,6 +65,8 @@ def gen(rs, tier, index):
                 else:
                     cur[j] = netlist.gen_vector(sr, [i])[0]
         n = 1 if fr.random() < 0.85 else fr.randint(2, 6)
+        if long_run and fr.random() < 0.7:
+            n = fr.randint(10, 120)
         parts = [n]
         if n > 1 and fr.random() < 0.5:
             a = fr.randint(1, n - 1)
@@ -77,6 +83,8 @@ def run(scn, log, st):
     d = scn['design']
     node = d['nodes'][0]
     kind = node['kind']
+    if sum(s_['n'] for s_ in scn['steps']) > 256:
+        st.probe('long_run')
     log.add('kind', kind, repr(sorted(node['p'].items())), node['ow'])
     b = netlist.Built(d)
     if scn.get('late_dut') is not None:
